@@ -236,7 +236,6 @@ func c18Eval(layers []c18Layer, q c18Query) *Case {
 			impl = map[string]any{"ok": false, "err": "not a not-exist error: " + err.Error()}
 		}
 		c.Impl = impl
-		c.Op = false
 		want := map[string]any{"ok": false}
 		if q.arg == "." && nonNil > 0 {
 			// the root exists in every real layer
